@@ -31,8 +31,7 @@ THOROUGH = {
     "random": 800,
     "gen": dict(length=50, weights={"store": 24, "fetch": 10, "fetchbody": 8, "append": 8, "copy": 5, "search": 4,
                                     "noop": 10, "idle": 4, "done": 4, "examine": 3}),
-    "tlc_timeout": 2400,
-    "tlc_timeout": 3000,
+    "tlc_timeout": 1500,
    }
 
 def fn(ck, a):
